@@ -1,0 +1,17 @@
+//go:build verif
+
+package chain
+
+import (
+	"context"
+
+	"0chain.net/chaincore/block"
+)
+
+// VerifFinalizeBlock runs finalizeBlock (records the dead nodes of the block at its round). No logic.
+func (c *Chain) VerifFinalizeBlock(ctx context.Context, fb *block.Block, bsh BlockStateHandler) error {
+	return c.finalizeBlock(ctx, fb, bsh)
+}
+
+// VerifPruneClientState runs pruneClientState. No logic.
+func (c *Chain) VerifPruneClientState(ctx context.Context) { c.pruneClientState(ctx) }
